@@ -47,7 +47,7 @@ var hookOf = map[string]string{
 }
 
 type stats struct {
-	files, imports, gos, selects, selectsLeft, hookCalls, knob int
+	files, imports, gos, selects, selectsLeft, hookCalls, knob, chanOps int
 }
 
 var st stats
@@ -149,8 +149,8 @@ func main() {
 			die("%v", err)
 		}
 	}
-	fmt.Printf("rewrite: files=%d imports=%d go=%d select=%d select_left=%d hook_calls=%d knob=%d\n",
-		st.files, st.imports, st.gos, st.selects, st.selectsLeft, st.hookCalls, st.knob)
+	fmt.Printf("rewrite: files=%d imports=%d go=%d select=%d select_left=%d hook_calls=%d knob=%d chan_ops=%d\n",
+		st.files, st.imports, st.gos, st.selects, st.selectsLeft, st.hookCalls, st.knob, st.chanOps)
 }
 
 func hasIdent(e ast.Expr) bool {
@@ -322,11 +322,20 @@ func rewriteFile(in, out, dir string, hookDirs, knobDirs map[string]string) erro
 					id.Name = h
 					st.hookCalls++
 				}
+				if id.Name == "close" && len(x.Args) == 1 && id.Obj == nil {
+					x.Fun = sel("simrt", "Close")
+					needSimrt = true
+					st.chanOps++
+				}
 			}
 		}
 		return true
 	}
 	ast.Inspect(f, visit)
+	// 6. plain receive expressions (not the comm clauses of a select that was left alone)
+	if rewriteRecvs(f) {
+		needSimrt = true
+	}
 
 	if needSimrt {
 		addImport(f, modPath+"/verifsim/simrt")
@@ -423,4 +432,77 @@ func rewriteSelect(s *ast.SelectStmt) ast.Stmt {
 		Tag:  &ast.CallExpr{Fun: sel("simrt", "Select"), Args: chans},
 		Body: &ast.BlockStmt{List: clauses},
 	}
+}
+
+// rewriteRecvs: `<-ch` -> simrt.Recv(ch); `v, ok := <-ch` / `v, ok = <-ch` -> simrt.Recv2(ch).
+// Receives that are the communication of a select clause are left alone.
+func rewriteRecvs(f *ast.File) bool {
+	changed := false
+	skip := map[ast.Node]bool{}
+	ast.Inspect(f, func(n ast.Node) bool {
+		if cc, ok := n.(*ast.CommClause); ok && cc.Comm != nil {
+			switch c := cc.Comm.(type) {
+			case *ast.ExprStmt:
+				skip[c.X] = true
+			case *ast.AssignStmt:
+				for _, r := range c.Rhs {
+					skip[r] = true
+				}
+			case *ast.SendStmt:
+			}
+		}
+		return true
+	})
+	repl := func(e ast.Expr, two bool) ast.Expr {
+		ue, ok := e.(*ast.UnaryExpr)
+		if !ok || ue.Op != token.ARROW || skip[e] {
+			return e
+		}
+		changed = true
+		st.chanOps++
+		name := "Recv"
+		if two {
+			name = "Recv2"
+		}
+		return &ast.CallExpr{Fun: sel("simrt", name), Args: []ast.Expr{ue.X}}
+	}
+	ast.Inspect(f, func(n ast.Node) bool {
+		switch x := n.(type) {
+		case *ast.ExprStmt:
+			x.X = repl(x.X, false)
+		case *ast.AssignStmt:
+			if len(x.Lhs) == 2 && len(x.Rhs) == 1 {
+				x.Rhs[0] = repl(x.Rhs[0], true)
+			} else {
+				for i := range x.Rhs {
+					x.Rhs[i] = repl(x.Rhs[i], false)
+				}
+			}
+		case *ast.ValueSpec:
+			if len(x.Names) == 2 && len(x.Values) == 1 {
+				x.Values[0] = repl(x.Values[0], true)
+			} else {
+				for i := range x.Values {
+					x.Values[i] = repl(x.Values[i], false)
+				}
+			}
+		case *ast.ReturnStmt:
+			for i := range x.Results {
+				x.Results[i] = repl(x.Results[i], false)
+			}
+		case *ast.CallExpr:
+			for i := range x.Args {
+				x.Args[i] = repl(x.Args[i], false)
+			}
+		case *ast.BinaryExpr:
+			x.X = repl(x.X, false)
+			x.Y = repl(x.Y, false)
+		case *ast.IfStmt:
+			x.Cond = repl(x.Cond, false)
+		case *ast.ParenExpr:
+			x.X = repl(x.X, false)
+		}
+		return true
+	})
+	return changed
 }
